@@ -17,6 +17,9 @@
       → `ok <sexp> | <spans>` | `err <Kind> <start> <end> <hint> | <spans>`
         | `need L|F <start> <stop>` (no verdict in the table for this literal)
         | `panic` | `fuel` | `bad-utf8`
+    c06 parsesig <hex utf-8 source | -> <table | ->
+        the model of `Parser::parse_signature` (`fn[T, …](type, …) -> type`); same answers as `parse`
+        with the tree `(Signature <k> (Params type*) (Ret type)?)` (no literal is ever decoded)
     c06 fpieces <hex text>
       → `pieces p:q,p:q,…`  the pieces `unescape_f_string_part` decodes one by one, by the model
     c06 crange <hex source | -> <start> <end>
@@ -245,6 +248,13 @@ def handle (args : List String) : String :=
         ⟨src, mkPreds t, litOracle src l, RotoV.Gen.ParseFacts.almostKeywords.map String.toList⟩)
     | none, _, _ => "bad-utf8"
     | _, _, _ => "bad-op"
+  | ["parsesig", hex, tbl] =>
+    match decode hex, parseTable tbl with
+    | some src, some t =>
+      showOut (RotoV.Parse.parseSignature
+        ⟨src, mkPreds t, fun _ _ _ => none, RotoV.Gen.ParseFacts.almostKeywords.map String.toList⟩)
+    | none, _ => "bad-utf8"
+    | _, _ => "bad-op"
   | ["fpieces", hex] =>
     match decode hex with
     | some t => "pieces " ++ ",".intercalate ((RotoV.Parse.pieces t).map fun p => s!"{p.1}:{p.2}")
